@@ -136,6 +136,24 @@ theorem dict_readback (F : Nat → LId → Option VId → Bool) (w w' : World) (
   rw [C04_order_and_multiplicity, hl, hnew, List.nil_append, gained, gained_eq_idxs]
   exact collect_idxs w' F x dir unk c g hg (dictPairs adj) w.nL hb.new_links
 
+/-- the read-back of `load_adj_matrix`, generically in the per-link contribution -/
+theorem matrix_readback (F : Nat → LId → Option VId → Bool) (w w' : World) (c : LCls)
+    (matrix : List (List Bool)) (verts : List VId) (u : VId) (h : Inv w) (hc : c.kind ≠ .nary)
+    (hv : ∀ v ∈ verts, v < w.nV) (hlen : verts.length = matrix.length)
+    (hsq : ∀ row ∈ matrix, row.length = matrix.length)
+    (hr : C.loadAdjMatrix M.prims w c matrix verts = .ok (w', u)) (x : VId) (hx : x < w.nV)
+    (hnew : w.links x = []) (dir unk : Nat) (g : VId × VId → Option (Option VId))
+    (hg : ∀ l a b, w'.ends l = [some a, some b] → w'.lcls l = c → (a = x ∨ b = x) →
+      linkOut w' F x dir unk none l = match g (a, b) with | some o => .emit o | none => .skip) :
+    M.neighborsPure w' F x dir unk none =
+      .ok (((matPairs verts matrix).filter (fun p => p.1 == x || p.2 == x)).filterMap g) := by
+  have hl := C11_matrix_links_of_vertex w w' c matrix verts u h hc hv hlen hsq hr x hx
+  obtain ⟨w'', e, hb⟩ := C11_matrix_builds w c matrix verts h hc hv hlen hsq
+  rw [e] at hr
+  cases hr
+  rw [C04_order_and_multiplicity, hl, hnew, List.nil_append, gained, gained_eq_idxs]
+  exact collect_idxs w' F x dir unk c g hg (matPairs verts matrix) w.nL hb.new_links
+
 /-! ### counting -/
 
 theorem count_gSym (x y : VId) (ps : List (VId × VId)) :
